@@ -347,6 +347,27 @@ def _script(spec):
     return out
 
 
+_CTOR_FIELD = {}
+
+
+def ctor_field(prog, ctor, text, fld):
+    """the private representation of a field is whatever the constructor makes of the string (`shape: String`, or an
+    enum the name is mapped into): ask the constructor.  Falls back to the string itself."""
+    key = (id(prog), ctor, text, fld)
+    if key not in _CTOR_FIELD:
+        out = ("str", text)
+        ev0 = A.Evaluator(prog)
+        if ctor in ev0.by_path:
+            s0 = ev0.summary(ctor, args=[("str", text)])
+            r0 = s0["ret"] if s0 else None
+            if r0 is not None and not A.is_form(r0) and r0[0] == "struct":
+                v1 = r0[1].get(fld)
+                if v1 is not None and not A.is_form(v1) and v1[0] in ("str", "variant"):
+                    out = v1
+        _CTOR_FIELD[key] = out
+    return _CTOR_FIELD[key]
+
+
 def _case_value(prog, ent, case_name, case):
     presets = {}
     if isinstance(case, dict) and case.get("preset"):
@@ -390,6 +411,10 @@ def _case_value(prog, ent, case_name, case):
                 fields[k] = ("tup", [("variant", x) for x in v[9:].split(",") if x])
             else:
                 fields[k] = A.ref(v)
+        for fld, ctor in (ent.get("self_ctor") or {}).items():
+            v0 = fields.get(fld)
+            if v0 is not None and not A.is_form(v0) and v0[0] == "str":
+                fields[fld] = ctor_field(prog, ctor, v0[1], fld)
         self_value = ("struct", fields)
     summ = ev.summary(ent["function"], self_value=self_value, args=argv)
     _case_value.incomplete = list(ev.incomplete)
